@@ -32,6 +32,6 @@ func main() {
 		fmt.Print(mod.Disassemble())
 	}
 	for _, i := range spv.Validate(mod) {
-		fmt.Println("ISSUE", i.Rule, i.Msg)
+		fmt.Println("ISSUE", i.Inst, i.Rule, i.Msg)
 	}
 }
